@@ -48,6 +48,13 @@ def check_C14(ctx):
     cs = CaseSet()
     eval_texts(ctx, cs, ctx.n(300, 6000), 4, ctx.n(300, 6000), ctx.n(150, 3000))
     fam_leaf_exh(cs, ctx.rng, stride=ctx.n(17, 2))
+    # objects holding values of every other Go type (YAML-style maps, map[string]string, named maps,
+    # slices, Stringers, ...) at the top level and nested, with paths that stop at them and paths that go through them
+    for hv in HOSTILE:
+        for o in (obj({'x': hv, 'k': I(1)}), obj({'n': {'x': hv}, 'k': I(1)})):
+            for t in ['x.name eq "bob"', 'x.n eq 1', 'x.a.b eq 1', 'x eq 1', 'x eq "bob"', 'x pr', 'x.name pr', 'n.x.name eq "bob"', 'n.x pr', 'n.x.n eq 1',
+                      'not (x.name eq "bob")', 'x.name eq "bob" or k eq 1', 'k eq 1 or x.name eq "bob"', 'k eq 2 or n.x.name eq "bob"', 'x.name in ["bob"]']:
+                cs.eval(t, o, 'hostile-object')
     res = ctx.run(cs)
     ctx.compare(cs.cases, res, ['verdict', 'err', 'ev3'], nontrivial=lambda c, mo: True)
     for c in cs.cases:
@@ -957,7 +964,7 @@ def check_C20(ctx):
     spread_samples(ctx, cs, res)
 
 # ----------------------------------------------------------------------------
-HOSTILE = [('strpanic',), ('strnilptr',), ('strselfpanic',), ('nilmap',), ('nil',), F(float('nan')), F(float('inf')), F(float('-inf'))] + [('o', t) for t in range(21)] + \
+HOSTILE = [('strpanic',), ('strnilptr',), ('strselfpanic',), ('nilmap',), ('nil',), F(float('nan')), F(float('inf')), F(float('-inf'))] + [('o', t) for t in list(range(21)) + [22, 23]] + \
           [('str', b'abc'), ('strptr', b'1.0.0'), ('m', [(b'y', ('strpanic',))]), ('m', [(b'y', ('o', 3))])]
 
 def check_C07(ctx):
@@ -1219,7 +1226,7 @@ def check_C19(ctx):
             bad_oracle += 1
             ctx.mismatches.append((c, 'json-oracle', 'bad', 'ok'))
         outs = (io.get('out') or '').split(';')
-        if 'PANIC' in outs or 'oDIFF' in outs or 'sBAD' in outs:
+        if 'PANIC' in outs or 'oDIFF' in outs or 'sBAD' in outs or 'sALIAS' in (io.get('out') or ''):
             ctx.violation('NestedError API misbehaved: %s' % io.get('out')[:200], [c])
             continue
         # idempotence, checked on the implementation itself: consecutive Error() calls on one layer agree
